@@ -368,6 +368,58 @@ func VerifC11SortedNew() {
 	verifrt.Cover("done")
 }
 
+// VerifC11CloneIndependent: a clone taken from a set in an arbitrary
+// reachable storage state (built from 0..2 elements, then optionally emptied
+// or shrunk by Clear / Delete, which keep the backing array) stays
+// independent of its origin: one mutation of the clone and one of the origin,
+// in either order, and each is compared with its own model.  Directed at
+// aliasing between the two (a history of Clear, Clone, Add, Add is longer than
+// the histories VerifC11SortedSliceSet explores in the quick tier).
+func VerifC11CloneIndependent() {
+	var init []int
+	var m c11Set
+	for j, k := 0, verifrt.Len(2); j < k; j++ {
+		v := c11Ord()
+		init = append(init, v)
+		m = m.add(v)
+	}
+	set := NewSortedSliceSet(init...)
+	switch verifrt.Choice(3) {
+	case 0:
+	case 1:
+		set.Clear()
+		m = nil
+	case 2:
+		v := c11Ord()
+		set.Delete(v)
+		m = m.del(v)
+	}
+	clone := set.Clone()
+	cm := append(c11Set(nil), m...)
+	verifrt.Assert(clone.Equal(set) && set.Equal(clone), "a fresh clone is not Equal to its origin")
+	mut := func(s *SortedSliceSet[int], mm c11Set) c11Set {
+		v := c11Ord()
+		if verifrt.Bool2() {
+			s.Add(v)
+
+			return mm.add(v)
+		}
+		s.Delete(v)
+
+		return mm.del(v)
+	}
+	if verifrt.Bool2() {
+		cm = mut(clone, cm)
+		m = mut(set, m)
+	} else {
+		m = mut(set, m)
+		cm = mut(clone, cm)
+	}
+	c11CheckSorted(set, m, "origin after mutating origin and clone")
+	c11CheckSorted(clone, cm, "clone after mutating origin and clone")
+	verifrt.Cover("done")
+}
+
 // VerifC11MapSetNaN: a MapSet of float64 holding a NaN (a key that is not
 // equal to itself): Clear still empties the set, Delete cannot remove it.
 func VerifC11MapSetNaN() {
